@@ -2,6 +2,7 @@ package props
 
 import (
 	"regexp"
+	"sort"
 	"strings"
 
 	"golang.org/x/tools/go/ssa"
@@ -15,13 +16,14 @@ func runC19Gaps2(c *eng.Ctx) {
 	c19gCheckTokenHandsEntryBack(c)
 	c19gNoReturnBeforeUse(c)
 	c19gSiblingEndpoints(c)
-	c19gUseTokenByID(c)
+	c19gUseTokenByID(c, "C19.1")
 	c19gFastPath(c)
 	c19gInitialLimit(c)
 	c19gLegacyLimit(c)
 	c19gControlGroupRMW(c)
 	c19gLockedStoresAreLockedReads(c)
 	c19gParentIsLive(c)
+	tokenEntryKeyAgreement(c, "C19.1")
 }
 
 // returnsUnder: the returns of f reachable after `after` when the conditions of
@@ -254,12 +256,12 @@ func c19gSiblingEndpoints(c *eng.Ctx) {
 // C19.1b: the by-ID variant adds nothing to UseToken: whatever it returns with
 // a possibly-nil error is UseToken's own result (a token that lookup no longer
 // returns is UseToken's "invalid entry" error, never a success).
-func c19gUseTokenByID(c *eng.Ctx) {
+func c19gUseTokenByID(c *eng.Ctx, clause string) {
 	f := c.Fn("vault.(*TokenStore).UseTokenByID")
 	if f == nil {
 		return
 	}
-	c.Clause("R5", "C19.1")
+	c.Clause("R5", clause)
 	succ := eng.SuccessReturns(f, 1)
 	if !c.Floor(f, "nil-capable returns", len(succ), 1) {
 		return
@@ -586,5 +588,156 @@ func c19gParentIsLive(c *eng.Ctx) {
 		}, 8)
 	} else {
 		c.Unresolved("vault.(*TokenStore).lookupInternal")
+	}
+}
+
+// tokenEntryKeyAgreement: writer and reader of a token entry agree on its
+// storage key. Salts and id views are per namespace, and the namespace of the
+// REQUEST may differ from the token's own. The writer (storeCommon, behind
+// ts.store / ts.create) resolves the entry's own namespace from
+// entry.NamespaceID, salts entry.ID in a context switched to that namespace and
+// puts the entry into idView of that same namespace; the reader (lookupInternal)
+// salts and reads in one namespace. A writer that salts in the caller's context
+// files the decremented use count (or the revocation marker) under a key nobody
+// reads: the stored count never drops (seed C19-d). Evaluated for C19.1 and,
+// because ts.store also writes the revocation marker, for C04.20.
+func tokenEntryKeyAgreement(c *eng.Ctx, clause string) {
+	originSet := func(v ssa.Value) map[string]bool {
+		m := map[string]bool{}
+		for _, o := range eng.Origins(v) {
+			m[o.Kind+":"+o.Desc] = true
+		}
+		return m
+	}
+	keys := func(m map[string]bool) string {
+		var ks []string
+		for k := range m {
+			ks = append(ks, k)
+		}
+		sort.Strings(ks)
+		return strings.Join(ks, ", ")
+	}
+	// the namespace arguments of the ContextWithNamespace calls a context value may come from
+	ctxNamespaces := func(ctx ssa.Value) (ns map[string]bool, plain bool, other []string) {
+		ns = map[string]bool{}
+		for _, o := range eng.Origins(ctx) {
+			cw, ok := o.Val.(*ssa.Call)
+			switch {
+			case ok && eng.CalleeName(&cw.Call) == "namespace.ContextWithNamespace" && len(cw.Call.Args) == 2:
+				for k := range originSet(cw.Call.Args[1]) {
+					ns[k] = true
+				}
+			case o.Kind == "param":
+				plain = true
+			default:
+				other = append(other, o.Kind+":"+o.Desc)
+			}
+		}
+		return
+	}
+	const ownNS = `call:vault.(*Core).NamespaceByID#0`
+	if f := c.Fn("vault.(*TokenStore).storeCommon"); f != nil {
+		c.Clause("R5", clause)
+		var puts []ssa.CallInstruction
+		for _, p := range eng.Calls(f, `\.Put$`) {
+			cc := p.Common()
+			if cc.IsInvoke() {
+				if rc, ok := cc.Value.(*ssa.Call); ok && strings.HasSuffix(eng.CalleeName(&rc.Call), "vault.(*TokenStore).idView") {
+					puts = append(puts, p)
+				}
+			}
+		}
+		if c.Floor(f, "write of the entry into the id view", len(puts), 1) {
+			for _, p := range puts {
+				cc := p.Common()
+				view := cc.Value.(*ssa.Call)
+				nsArg := view.Call.Args[len(view.Call.Args)-1]
+				// (1) the view is the one of the entry's own namespace
+				site := "id view written is the one of the entry's own namespace"
+				var nsCall *ssa.Call
+				if ex, ok := nsArg.(*ssa.Extract); ok && ex.Index == 0 {
+					nsCall, _ = ex.Tuple.(*ssa.Call)
+				}
+				if nsCall == nil || !strings.HasSuffix(eng.CalleeName(&nsCall.Call), "vault.(*Core).NamespaceByID") {
+					c.Violation(f, site, p.Pos(), "idView is given "+eng.Expr(nsArg)+", not the namespace resolved from the entry", nil)
+					continue
+				}
+				idArg := nsCall.Call.Args[len(nsCall.Call.Args)-1]
+				if ok, bad, _ := eng.OriginsMatch(idArg, `^field:entry\.NamespaceID$`); ok {
+					c.OK(f, site, p.Pos(), "idView(NamespaceByID(entry.NamespaceID))")
+				} else {
+					c.Violation(f, site, p.Pos(), "the namespace of the id view is resolved from "+bad+", not from entry.NamespaceID", nil)
+				}
+				// (2) the key is the entry's id salted in that same namespace
+				site = "entry key is entry.ID salted in the entry's own namespace"
+				kv := eng.StructLitField(cc.Args[len(cc.Args)-1], "Key")
+				if len(kv) == 0 {
+					c.Undecided(f, site, p.Pos(), "the storage entry written is not a local literal with a Key")
+					continue
+				}
+				for _, k := range kv {
+					ex, ok := k.(*ssa.Extract)
+					var salt *ssa.Call
+					if ok && ex.Index == 0 {
+						salt, _ = ex.Tuple.(*ssa.Call)
+					}
+					if salt == nil || !strings.HasSuffix(eng.CalleeName(&salt.Call), "vault.(*TokenStore).SaltID") {
+						c.Violation(f, site, p.Pos(), "the key of the entry is "+eng.Expr(k)+", not a SaltID result", nil)
+						continue
+					}
+					a := salt.Call.Args
+					if ok, bad, _ := eng.OriginsMatch(a[2], `^field:entry\.ID$`); !ok {
+						c.Violation(f, site, salt.Pos(), "the id salted for the entry's key comes from "+bad+", not entry.ID", nil)
+						continue
+					}
+					ns, plain, other := ctxNamespaces(a[1])
+					switch {
+					case plain || len(other) > 0 || len(ns) == 0:
+						c.Violation(f, site, salt.Pos(), "entry.ID is salted in "+eng.ExprDeep(a[1])+": salts are per namespace, so when the request namespace differs from the token's the entry is written under a key no lookup reads (the stored use count never drops)", nil)
+					case len(ns) == 1 && ns[ownNS] && func() bool {
+						// the very namespace value handed to idView
+						for _, o := range eng.Origins(a[1]) {
+							if cw, ok := o.Val.(*ssa.Call); ok && len(cw.Call.Args) == 2 && cw.Call.Args[1] != nsArg {
+								return false
+							}
+						}
+						return true
+					}():
+						c.OK(f, site, salt.Pos(), "SaltID(ContextWithNamespace(ctx, NamespaceByID(entry.NamespaceID)), entry.ID)")
+					default:
+						c.Violation(f, site, salt.Pos(), "entry.ID is salted in the namespace "+keys(ns)+", the entry is written into idView("+eng.Expr(nsArg)+")", nil)
+					}
+				}
+			}
+		}
+	}
+	if f := c.Fn("vault.(*TokenStore).lookupInternal"); f != nil {
+		c.Clause("R5", clause)
+		var gets []ssa.CallInstruction
+		for _, g := range eng.Calls(f, `\.Get$`) {
+			cc := g.Common()
+			if cc.IsInvoke() {
+				if rc, ok := cc.Value.(*ssa.Call); ok && strings.HasSuffix(eng.CalleeName(&rc.Call), "vault.(*TokenStore).idView") {
+					gets = append(gets, g)
+				}
+			}
+		}
+		salts := eng.Calls(f, `vault\.\(\*TokenStore\)\.SaltID$`)
+		if c.Floor(f, "read of the entry from the id view", len(gets), 1) && c.Floor(f, "SaltID of the looked-up id", len(salts), 1) {
+			for _, g := range gets {
+				view := g.Common().Value.(*ssa.Call)
+				viewNS := originSet(view.Call.Args[len(view.Call.Args)-1])
+				delete(viewNS, "call:namespace.FromContext#0") // the unswitched request namespace pairs with the plain ctx
+				for _, s := range salts {
+					ns, _, other := ctxNamespaces(s.Common().Args[1])
+					site := "id is salted in the namespace whose id view is read"
+					if len(other) == 0 && keys(ns) == keys(viewNS) {
+						c.OK(f, site, s.Pos(), "switched namespaces: "+keys(ns))
+					} else {
+						c.Violation(f, site, s.Pos(), "SaltID runs in a context switched to {"+keys(ns)+"} "+strings.Join(other, ",")+" while idView is taken of {"+keys(viewNS)+"}", nil)
+					}
+				}
+			}
+		}
 	}
 }
